@@ -411,6 +411,8 @@ func runC19(r *hx.Result, cfg hx.Config) {
 	blackBox(r, cfg, rng)
 	// access-path sweep over the pattern-selecting forms of SCAN / SEARCH (Props/C19sel.v, seeds_r3.go)
 	c19Round3(r, cfg, rng, drv)
+	// refused / malformed writes on absent keys: key space vs retrievable objects (Props/C19ks.v, seeds_r4.go)
+	c19Round4(r, cfg, rng)
 	// hook / channel registry size against the life-cycle model (Props/C19hk.v)
 	hooklife.RunC19(r, cfg)
 }
